@@ -90,7 +90,18 @@ struct FDir {
 #[derive(Clone, Debug, Serialize, Deserialize)]
 enum Case {
     Static { dirs: Vec<SDir> },
-    Dynamic { sdirs: Vec<SDir>, ddirs: Vec<DDir>, as_filter: bool, ops: Vec<Op> },
+    Dynamic {
+        sdirs: Vec<SDir>,
+        ddirs: Vec<DDir>,
+        as_filter: bool,
+        ops: Vec<Op>,
+        /// which constructor builds the filter from the string (see `build_env`)
+        #[serde(default)]
+        ctor: u8,
+        /// the builder's default directive (constructors 3 and 4)
+        #[serde(default)]
+        dflt: Option<SDir>,
+    },
     /// replay-only: a raw directive string given to both parsers (known findings F9/F13)
     Raw { dirs: String },
     /// one raw `target[{f1,f2}]=level` directive through `Directive::from_str` + add_directive
@@ -443,7 +454,36 @@ fn run_static(dirs: &[SDir]) -> Outcome {
     Outcome::pass(ambiguous && (dup || dirs.len() >= 2), classes)
 }
 
-fn run_dynamic(sdirs: &[SDir], ddirs_in: &[DDir], as_filter: bool, ops: &[Op]) -> Outcome {
+/// The ways a directive string becomes an EnvFilter. A default directive (ERROR for `new` / `From`,
+/// the builder's otherwise) is documented to apply only when the string holds no directive at all.
+/// Returns the filter and the default directive that constructor carries.
+fn build_env(s: &str, ctor: u8, dflt: &Option<SDir>) -> Result<(EnvFilter, Option<SDir>, &'static str), String> {
+    let error = SDir { target: None, level: 1, spell: Spell::Lower, bare_target: false };
+    let d = dflt.clone().unwrap_or_else(|| error.clone());
+    let dd = || d.render().parse::<tracing_subscriber::filter::Directive>().map_err(|e| format!("default directive {:?}: {e}", d.render()));
+    Ok(match ctor % 6 {
+        0 => (EnvFilter::try_new(s).map_err(|e| e.to_string())?, None, "EnvFilter::try_new"),
+        1 => (EnvFilter::new(s), Some(error), "EnvFilter::new"),
+        2 => (EnvFilter::from(s), Some(error), "EnvFilter::from"),
+        3 => (EnvFilter::builder().with_default_directive(dd()?).parse(s).map_err(|e| e.to_string())?, Some(d), "Builder::with_default_directive + parse"),
+        4 => {
+            // an invalid directive is skipped by the lossy parser
+            let lossy = if s.is_empty() { "zz=loud".to_string() } else { format!("{s},zz=loud") };
+            (EnvFilter::builder().with_default_directive(dd()?).parse_lossy(lossy), Some(d), "Builder::with_default_directive + parse_lossy (one invalid directive appended)")
+        }
+        _ => (s.parse::<EnvFilter>().map_err(|e| e.to_string())?, None, "str::parse::<EnvFilter>"),
+    })
+}
+
+fn run_dynamic(sdirs_in: &[SDir], ddirs_in: &[DDir], as_filter: bool, ops: &[Op], ctor: u8, dflt: &Option<SDir>) -> Outcome {
+    let multi = ddirs_in.iter().any(|d| d.two().is_some());
+    let ctor = if multi { 0 } else { ctor % 6 };
+    // the model's static directives: the given ones, or the constructor's default directive when
+    // the string holds no directive at all
+    let carried = match ctor { 1 | 2 => Some(SDir { target: None, level: 1, spell: Spell::Lower, bare_target: false }), 3 | 4 => Some(dflt.clone().unwrap_or(SDir { target: None, level: 1, spell: Spell::Lower, bare_target: false })), _ => None };
+    let model_sdirs: Vec<SDir> = if sdirs_in.is_empty() && ddirs_in.is_empty() { carried.into_iter().collect() } else { sdirs_in.to_vec() };
+    let sdirs_given = sdirs_in;
+    let sdirs = &model_sdirs[..];
     // identical (target, span, field matcher) directives: the later entry replaces the earlier
     let mut ddirs: Vec<DDir> = vec![];
     for d in ddirs_in {
@@ -455,16 +495,15 @@ fn run_dynamic(sdirs: &[SDir], ddirs_in: &[DDir], as_filter: bool, ops: &[Op]) -
         }
     }
     let ddirs = &ddirs[..];
-    let s: String = sdirs.iter().map(|d| d.render()).chain(ddirs_in.iter().map(|d| d.render())).collect::<Vec<_>>().join(",");
-    let multi = ddirs_in.iter().any(|d| d.two().is_some());
+    let s: String = sdirs_given.iter().map(|d| d.render()).chain(ddirs_in.iter().map(|d| d.render())).collect::<Vec<_>>().join(",");
+    let mut how = "EnvFilter::try_new";
     let e = if multi {
         // a directive with two value matchers contains a comma: it is added on its own
-        let mut e = match EnvFilter::try_new(sdirs.iter().map(|d| d.render()).collect::<Vec<_>>().join(",")) {
+        let mut e = match EnvFilter::try_new(sdirs_given.iter().map(|d| d.render()).collect::<Vec<_>>().join(",")) {
             Ok(e) => e,
             Err(e) => return fail("EnvFilter rejects a string of the documented grammar", format!("{s:?}: {e}")),
         };
-        if sdirs.is_empty() {
-            // an empty string installs the default ERROR directive; the joined-string path has none
+        if sdirs_given.is_empty() {
             e = EnvFilter::try_new("off").unwrap();
         }
         for d in ddirs_in {
@@ -475,9 +514,12 @@ fn run_dynamic(sdirs: &[SDir], ddirs_in: &[DDir], as_filter: bool, ops: &[Op]) -
         }
         e
     } else {
-        match EnvFilter::try_new(&s) {
-            Ok(e) => e,
-            Err(e) => return fail("EnvFilter rejects a string of the documented grammar", format!("{s:?}: {e}")),
+        match build_env(&s, ctor, dflt) {
+            Ok((e, _, h)) => {
+                how = h;
+                e
+            }
+            Err(e) => return fail("EnvFilter rejects a string of the documented grammar", format!("{s:?} (constructor {ctor}): {e}")),
         }
     };
     // Display round trip keeps behaviour: run the same history against the reparsed filter too
@@ -488,6 +530,10 @@ fn run_dynamic(sdirs: &[SDir], ddirs_in: &[DDir], as_filter: bool, ops: &[Op]) -
     let place = || if as_filter { Place::PerLayerFilter } else { Place::GlobalLayer };
     let mut nontrivial = false;
     let mut classes: Vec<String> = vec![];
+    if (1..=4).contains(&ctor) {
+        classes.push(if sdirs_given.is_empty() && ddirs_in.is_empty() { "constructor_default_directive_applies".into() } else if sdirs_given.is_empty() { "constructor_default_directive_with_span_only_string".into() } else { "constructor_default_directive_unused".into() });
+    }
+    let s = format!("{s} [via {how}]");
     let mut variants = vec![("parsed", stack_env(e, place()))];
     if !multi {
         // (a two-matcher directive does not survive the comma split of a filter string: F13)
@@ -1070,11 +1116,14 @@ impl Property for C11 {
             2 => (0u8..5, 0u8..6, 0u8..2).prop_map(|(level, target, name)| Op::ProbeSpan { level, target, name }),
         ];
         let max = tier.pick(25usize, 40usize);
-        let dy = (proptest::collection::vec(sdir_strategy(), 0..3), proptest::collection::vec(ddir_strategy(), 1..4), any::<bool>(), proptest::collection::vec(op.clone(), 1..max)).prop_map(|(sdirs, ddirs, as_filter, ops)| Case::Dynamic { sdirs, ddirs, as_filter, ops });
+        // constructor: half of the cases try_new, the rest spread over the other five
+        let ctor = prop_oneof![3 => Just(0u8), 3 => 1u8..6];
+        let dflt = proptest::option::weighted(0.7, sdir_strategy());
+        let dy = (proptest::collection::vec(sdir_strategy(), 0..3), proptest::collection::vec(ddir_strategy(), 0..4), any::<bool>(), proptest::collection::vec(op.clone(), 1..max), ctor.clone(), dflt.clone()).prop_map(|(sdirs, ddirs, as_filter, ops, ctor, dflt)| Case::Dynamic { sdirs, ddirs, as_filter, ops, ctor, dflt });
         // nested template: spans whose values do / do not satisfy a value directive are entered
         // inside each other and left again, with events in between
-        let nested = (proptest::collection::vec(sdir_strategy(), 0..2), (0u8..2, val_strategy(), 1u8..=5, proptest::option::weighted(0.5, 0u8..2)), proptest::collection::vec(ddir_strategy(), 0..2), any::<bool>(), proptest::collection::vec((0u8..2, proptest::option::weighted(0.8, val_strategy()), 0u8..6, 0u8..5), 2..4), proptest::collection::vec(op, 0..6))
-            .prop_map(|(sdirs, (f, v, level, span), mut ddirs, as_filter, spans, extra)| {
+        let nested = (proptest::collection::vec(sdir_strategy(), 0..2), (0u8..2, val_strategy(), 1u8..=5, proptest::option::weighted(0.5, 0u8..2)), proptest::collection::vec(ddir_strategy(), 0..2), any::<bool>(), proptest::collection::vec((0u8..2, proptest::option::weighted(0.8, val_strategy()), 0u8..6, 0u8..5), 2..4), proptest::collection::vec(op, 0..6), (ctor, dflt))
+            .prop_map(|(sdirs, (f, v, level, span), mut ddirs, as_filter, spans, extra, (ctor, dflt))| {
                 ddirs.insert(0, DDir { target: None, span: span.map(|_| 0), field: Some((f, Some(v))), level, field2: None });
                 let mut ops = vec![];
                 for (i, (name, val, target, lvl)) in spans.iter().enumerate() {
@@ -1089,7 +1138,7 @@ impl Property for C11 {
                     ops.push(Op::Event { level: 0, target: *target });
                 }
                 ops.extend(extra);
-                Case::Dynamic { sdirs, ddirs, as_filter, ops }
+                Case::Dynamic { sdirs, ddirs, as_filter, ops, ctor, dflt }
             });
         // two-matcher template: a span satisfies one of the two value matchers of a directive
         // (recorded at creation and again later), the other one never or only later
@@ -1107,7 +1156,7 @@ impl Property for C11 {
                 }
                 ops.push(Op::Exit);
                 ops.push(Op::Event { level: 4, target });
-                Case::Dynamic { sdirs, ddirs, as_filter, ops }
+                Case::Dynamic { sdirs, ddirs, as_filter, ops, ctor: 0, dflt: None }
             });
         let tokens = proptest::collection::vec(any::<u8>(), 1..16).prop_map(|data| Case::Tokens { data });
         let fdir = (proptest::option::weighted(0.8, 0u8..3), proptest::collection::vec(0u8..4, 0..4), 0u8..6).prop_map(|(target, fields, level)| FDir { target, fields, level });
@@ -1117,7 +1166,7 @@ impl Property for C11 {
     fn run(&self, case: &Case) -> Outcome {
         match case {
             Case::Static { dirs } => run_static(dirs),
-            Case::Dynamic { sdirs, ddirs, as_filter, ops } => run_dynamic(sdirs, ddirs, *as_filter, ops),
+            Case::Dynamic { sdirs, ddirs, as_filter, ops, ctor, dflt } => run_dynamic(sdirs, ddirs, *as_filter, ops, *ctor, dflt),
             Case::Raw { dirs } => run_raw(dirs),
             Case::RawDirective { dirs } => run_raw_directive(dirs),
             Case::Tokens { data } => fuzz_one(data),
